@@ -15,6 +15,8 @@ extern "C" __attribute__((used, visibility("default"))) const char *__asan_defau
            "handle_abort=1:print_summary=1:symbolize=1:fast_unwind_on_malloc=1";
 }
 
+extern "C" void __sanitizer_symbolize_pc(void *pc, const char *fmt, char *out_buf, size_t out_buf_size);
+
 using namespace h4;
 
 static void usage()
@@ -37,6 +39,11 @@ int main(int argc, char **argv)
         }
     }
     setvbuf(stdout, nullptr, _IOLBF, 0);
+    {
+        // load the symbolizer's debug info once, before any fork: children inherit it instead of re-reading it
+        char warm[128];
+        __sanitizer_symbolize_pc((void *)&usage, "%f", warm, sizeof warm);
+    }
     DriverOpts o;
     if (const char *s = getenv("VERIF_SEED"))
         o.seed = strtoull(s, nullptr, 10);
